@@ -43,8 +43,8 @@ Lemma get_go (ck : key) (cs : list (option tnode)) i :
     end.
 Proof. revert i. induction cs as [|o cs IH]; intros [|i]; simpl; auto. Qed.
 
-Lemma retrieve_get : forall fuel h t k,
-  length k < fuel -> rep h t -> lwf t ->
+Lemma retrieve_get fl : forall fuel h t k,
+  length k < fuel -> rep h t -> lwf fl t ->
   retrieve true fuel h (Some (aroot t)) k = Trie.Model.get (er t) k.
 Proof.
   induction fuel as [|f IH]; intros h t k Hlen Hr Hl; [lia|].
@@ -66,7 +66,7 @@ Proof.
       destruct (Nat.lt_ge_cases (nth (cpl pk k) k 0) (length ks)); auto.
       rewrite nth_overflow in Eok by auto. discriminate. }
     assert (Hrk : rep h k0) by (eapply (rep_kid h (AN a pk sv mbh gn true ks)); eauto).
-    assert (Hlk : lwf k0) by (apply lwf_unfold in Hl; destruct Hl as (_ & Hk); auto).
+    assert (Hlk : lwf fl k0) by (apply lwf_unfold in Hl; destruct Hl as (_ & _ & _ & Hk); auto).
     unfold kid_pk_nonempty. destruct (rep_cell _ _ Hrk) as (c0 & Hc0 & Hci0). rewrite Hc0.
     rewrite node_pk_er. destruct k0 as [a0 pk0 sv0 mbh0 gn0 isb0 ks0]. unfold cell_is in Hci0.
     destruct Hci0 as (Epk0 & _). rewrite Epk0.
@@ -78,8 +78,8 @@ Proof.
 Qed.
 
 (* ---------- Entries() ---------- *)
-Lemma entries_trie m hd t :
-  hwf m -> rep (hp m) t -> sep t -> h_root hd = Some (aroot t) -> lwf t ->
+Lemma entries_trie f m hd t :
+  hwf m -> rep (hp m) t -> sep t -> h_root hd = Some (aroot t) -> lwf f t ->
   entries_handle true m hd
   = map (fun e => (fst e, match snd e with Some v => v | None => [] end)) (Trie.Model.trie_entries (Some (er t))).
 Proof.
@@ -87,14 +87,55 @@ Proof.
   rewrite (node_keys_pkeys (cfuel m) (hp m) t []) by (auto using depth_fuel).
   rewrite pkeys_entries. cbn [Trie.Model.entries]. rewrite !map_map.
   apply map_ext. intros [k v]. cbn [fst snd]. f_equal.
-  unfold Trie.Model.trie_get. rewrite retrieve_get; auto.
+  unfold Trie.Model.trie_get. rewrite (retrieve_get f); auto.
 Qed.
 
-Lemma entries_map m hd t (b : Spec.bmap) :
-  hwf m -> rep (hp m) t -> sep t -> h_root hd = Some (aroot t) -> lwf t ->
+Lemma entries_map f m hd t (b : Spec.bmap) :
+  hwf m -> rep (hp m) t -> sep t -> h_root hd = Some (aroot t) -> lwf f t ->
   MapProofs.Rep (Some (er t)) b -> entries_handle true m hd = b.
 Proof.
-  intros Hw Hr Hs Hroot Hl R. rewrite (entries_trie m hd t) by auto.
+  intros Hw Hr Hs Hroot Hl R. rewrite (entries_trie f m hd t) by auto.
   rewrite (QueryProofs.Rep_entries _ _ R). rewrite map_map. cbn [fst snd].
   rewrite <- (map_id b) at 2. apply map_ext. intros [k v]. reflexivity.
+Qed.
+
+(* ---------- Hash() ---------- *)
+Definition ver_of (v1 : bool) : version := if v1 then V1 else V0.
+
+Lemma must_hash_ver v1 v : must_hash v1 v = must_be_hashed (ver_of v1) v.
+Proof. destruct v1; reflexivity. Qed.
+
+Lemma bitmap_from_ero ks i : Model.bitmap_from i (map oroot ks) = Encode.bitmap_from i (map ero ks).
+Proof. revert i. induction ks as [|[k|] ks IH]; intros i; simpl; auto; now rewrite IH. Qed.
+
+Lemma kenc_children H v1 ks :
+  (forall k, In (Some k) ks -> penc H k = Encode.enc H (ver_of v1) (er k)) ->
+  kenc H (penc H) ks
+  = (fix enc_children (l : list (option tnode)) : list byte :=
+       match l with
+       | [] => []
+       | None :: r => enc_children r
+       | Some c :: r => scale_bytes (merkle_of_encoding H (Encode.enc H (ver_of v1) c)) ++ enc_children r
+       end) (map ero ks).
+Proof.
+  induction ks as [|[k|] ks IHk]; intros Hk; cbn [kenc map ero option_map]; auto.
+  - rewrite (Hk k (or_introl eq_refl)). rewrite IHk by (intros; apply Hk; right; auto). reflexivity.
+  - apply IHk. intros; apply Hk; right; auto.
+Qed.
+
+(* with the MustBeHashed flags the version demands, the encoding of the heap tree is Node.Encode of
+   the pure trie (Trie/Encode.v), so Hash() is the root of property C01 *)
+Lemma penc_enc H v1 : forall t, lwf (fl_ver v1) t -> penc H t = Encode.enc H (ver_of v1) (er t).
+Proof.
+  induction t as [a pk sv mbh gn isb ks IH] using atree_ind'. rewrite oall_in in IH. intros Hl.
+  apply lwf_unfold in Hl. destruct Hl as (Hleaf & Hflag & Hlen & Hk).
+  rewrite er_unfold. cbn [penc]. unfold enc_fields. destruct isb.
+  - cbn [Encode.enc]. unfold Encode.children_bitmap. rewrite bitmap_from_ero.
+    rewrite (kenc_children H v1 ks) by (intros k Hin; apply IH; auto).
+    destruct sv as [v|]; cbn [is_some].
+    + rewrite (Hflag v eq_refl). unfold Encode.enc_value. rewrite !must_hash_ver. reflexivity.
+    + destruct mbh; reflexivity.
+  - destruct sv as [v|]; [|exfalso; apply Hleaf; auto]. cbn [Encode.enc is_some].
+    rewrite (Hflag v eq_refl). unfold Encode.enc_value. rewrite !must_hash_ver.
+    destruct ks; [|discriminate]. cbn [kenc]. rewrite !app_nil_r. reflexivity.
 Qed.
